@@ -295,7 +295,8 @@ def obligations(tier):
       Ob('control_flow_like_python', control_flow_like_python,
          dict(t=I(0, 3), second=I(0, 1), v0=v, v1=v, v2=v, x=v, o0=op, o1=op,
               sel=I(0, 2), trips=I(0, 2)),
-         split=('t', 'o0', 'second'), timeout=900, funcs=F, per_path_timeout=60.0,
+         split=('t', 'o0', 'o1', 'second'), timeout=900, funcs=F,
+         per_path_timeout=60.0,
          bounds='cond/switch over 2 branches (+noop), fori/while trip counts 0..2'),
       Ob('aliased_inputs_one_object', aliased_inputs_are_one_object,
          dict(v0=v, v2=v, x=v, t=I(0, 1)), timeout=300, funcs=F),
